@@ -190,6 +190,35 @@ def build_model(scn):
     return m
 
 
+def role_arrays(scn):
+    """-> (take(rows, role), row(r)): the rows as the scenario presents them.  By default every array shares the data set's dtype; with
+    scn["present_roles"] = {"train" | "val" | "query": dtype} the arrays of one call differ in dtype (integer-typed training samples on a
+    grid, real-valued queries) - and the harness evaluates the metric on exactly those typed rows."""
+    np = _np()
+    how = H.derive_presentation(scn)
+    Z = H.present_values(scn["Z"], how)
+    roles = scn.get("present_roles") or {}
+    if not roles:
+        return (lambda rws, role: Z[list(rws)].copy()), (lambda r: Z[r].copy())
+    Zf = np.array(scn["Z"], dtype=float)
+    role_of = {}
+    for r in scn.get("Q") or []:
+        role_of[r] = "query"
+    for r in scn.get("I_val") or []:
+        role_of[r] = "val"
+    for r in scn["I_train"]:
+        role_of[r] = "train"
+
+    def take(rws, role):
+        rws = list(rws)
+        return H.present_values(Zf[rws], roles[role]) if role in roles else Z[rws].copy()
+
+    def row(r):
+        role = role_of.get(r)
+        return take([r], role)[0] if role in roles else Z[r].copy()
+    return take, row
+
+
 def dist_fn(scn, model):
     np = _np()
     how = H.derive_presentation(scn)
@@ -200,6 +229,9 @@ def dist_fn(scn, model):
     # the metric NAMED by the scenario, taken from the registry - not whatever function the object ended up holding
     import opfython.math.distance as _dist
     fn = _dist.DISTANCES[scn.get("metric", "euclidean")]
+    if scn.get("present_roles"):
+        _, row = role_arrays(scn)
+        return lambda a, b: float(fn(row(a), row(b)))
     return lambda a, b: float(fn(Z[a].copy(), Z[b].copy()))
 
 
@@ -213,6 +245,7 @@ def _run_scenario(scn):
     how = H.derive_presentation(scn)
     P = lambda A: H.present_layout(A, how)
     Z = H.present_values(scn["Z"], how)
+    take, _row = role_arrays(scn)
     I_train = list(scn["I_train"])
     n = len(I_train)
     Q = scn.get("Q") or []
@@ -247,7 +280,7 @@ def _run_scenario(scn):
     hist = list(H.derive_history(scn))
     if scn.get("prepredict") and "prepredict" not in hist:
         hist.insert(0, "prepredict")
-    Xtr = Z[I_train].copy()
+    Xtr = take(I_train, "train")
     loff = int(scn.get("label_offset", 0))         # class labels need not start at 0
     Ytr = np.array(scn["Y"], dtype=int) + loff
     if "refit" in hist:
@@ -255,7 +288,7 @@ def _run_scenario(scn):
             if scn["kind"] == "unsup":
                 model.fit(P(Xtr.copy()), Ytr.copy(), np.array(I_train) if passI else None)
             else:
-                model.fit(P(Xtr.copy()), Ytr.copy(), P(Z[list(scn["I_val"])].copy()), np.array(scn["Yv"], dtype=int) + loff, np.array(I_train) if passI else None, np.array(list(scn["I_val"])) if passI else None)
+                model.fit(P(Xtr.copy()), Ytr.copy(), P(take(scn["I_val"], "val")), np.array(scn["Yv"], dtype=int) + loff, np.array(I_train) if passI else None, np.array(list(scn["I_val"])) if passI else None)
         except Exception as ex:
             return raised(ex)
     if "stale_matrix" in hist and scn["mode"] in ("metric", "table"):
@@ -267,14 +300,14 @@ def _run_scenario(scn):
                 model.fit(P(Xtr), Ytr.copy(), np.array(I_train) if passI else None)
                 if "prepredict" in hist and Q:
                     # object history: the model has already predicted once before its labels are (re)written
-                    model.predict(P(Z[Q].copy()), np.array(Q) if passI else None)
+                    model.predict(P(take(Q, "query")), np.array(Q) if passI else None)
                 if scn.get("propagate"):
                     model.propagate_labels()
             else:
                 Iv = list(scn["I_val"])
-                model.fit(P(Xtr), Ytr.copy(), P(Z[Iv].copy()), np.array(scn["Yv"], dtype=int) + loff, np.array(I_train) if passI else None, np.array(Iv) if passI else None)
+                model.fit(P(Xtr), Ytr.copy(), P(take(Iv, "val")), np.array(scn["Yv"], dtype=int) + loff, np.array(I_train) if passI else None, np.array(Iv) if passI else None)
                 if "prepredict" in hist and Q:
-                    model.predict(P(Z[Q[::-1]].copy()), np.array(Q[::-1]) if passI else None)
+                    model.predict(P(take(Q[::-1], "query")), np.array(Q[::-1]) if passI else None)
         finally:
             CTX["on"] = False
         orig = model
@@ -297,7 +330,7 @@ def _run_scenario(scn):
         }
         qres = []
         if Q:
-            Xq = Z[Q].copy()
+            Xq = take(Q, "query")
             batches = [[j] for j in range(len(Q))] if scn.get("single_predict") else [list(range(len(Q)))]
             for b in batches:
                 r = model.predict(P(Xq[b].copy()), np.array([Q[j] for j in b]) if passI else None)
@@ -518,6 +551,28 @@ def handle_skip(rep, scn, why, pids):
 def relabel(y):
     u = sorted(set(y))
     return [u.index(v) for v in y]
+
+
+def mixed_dtype_scenarios(rng, count, nq=16):
+    """The arrays of one call need not share a dtype: integer-typed training samples on a coarse grid (counts, grey levels) with
+    real-valued validation samples and queries - a query is the sample the caller handed over, fractional part included."""
+    np = _np()
+    out = []
+    for i in range(count):
+        kind = "unsup" if i % 2 else "knn"
+        scn = random_scenario(rng, kind, metric=("euclidean", "manhattan", "squared_euclidean", "chebyshev")[i % 4], n=rng.randrange(6, 13), nq=nq, mode="metric")
+        scn["prefit"] = None
+        Z = np.array(scn["Z"])
+        f = (3.0, 1.5)[(i // 2) % 2]
+        grid = list(scn["I_train"])
+        other = [r for r in range(len(Z)) if r not in grid]
+        Z[grid] = np.round(Z[grid] * f)
+        Z[other] = Z[other] * f + 0.37
+        scn["Z"] = Z.tolist()
+        scn["present"] = "f64"
+        scn["present_roles"] = {"train": "int", "val": "f64", "query": "f64"}
+        out.append(scn)
+    return out
 
 
 def random_scenario(rng, kind, metric="euclidean", n=None, nq=5, lattice=False, dup=False, max_k=None, min_k=None, mode=None, positive=False, classes=None, nval=None):
